@@ -7,7 +7,7 @@ SPEC = Spec(
         # deterministic, gated histories: exact differential (D) against the LTS + Lean trace monitor (M) + Go oracles
         Harness(name="runloop", module="otelcol", pkg="otelcol",
                 files={"zz_verif_c20_runloop_test.go": "c20/runloop_test.go"},
-                test="TestVerifC20RunLoop", driver="drv_c20", n={"quick": 5000, "thorough": 50000}, timeout_s=1500),
+                test="TestVerifC20RunLoop", driver="drv_c20", n={"quick": 4000, "thorough": 40000}, timeout_s=1500),
         # exhaustive small scope: every script over the gate alphabet up to length n (3 anchors), same protocol and model
         Harness(name="exhaustive", module="otelcol", pkg="otelcol",
                 files={"zz_verif_c20_runloop_test.go": "c20/runloop_test.go", "zz_verif_c20_exhaustive_test.go": "c20/exhaustive_test.go"},
@@ -15,7 +15,7 @@ SPEC = Spec(
         # native scheduling, no gates: monitored only (M)
         Harness(name="race", module="otelcol", pkg="otelcol",
                 files={"zz_verif_c20_runloop_test.go": "c20/runloop_test.go"},
-                test="TestVerifC20Race", driver="drv_c20", n={"quick": 1000, "thorough": 10000}, timeout_s=1500),
+                test="TestVerifC20Race", driver="drv_c20", n={"quick": 700, "thorough": 7000}, timeout_s=1500),
     ],
     rule="runloop: the real otelcol.Collector (real ConfigProvider/confmap.Resolver, real service.Service) with an instrumented "
          "confmap provider and instrumented receiver/exporter/extension factories; the Run goroutine is parked at gates inside the "
@@ -26,8 +26,14 @@ SPEC = Spec(
          "4-27 labels per history, then finished with ok outcomes; case 0 is the corpus witness (SIGHUP, Shutdown() while Closing). "
          "Every label is an `op`, the observable state (GetState, shutdownChan closed?, generation, live generations, per-generation "
          "service shutdown count, provider shutdown count, Run's result) after it is diffed exactly with the model; the select branch "
-         "taken is read from the service log and fed to the model, which checks it was enabled. non-trivial = at least one reload; "
-         "distinct = distinct op sequence. race: no gates, hooks sleep 0-0.3 ms, 1-4 reload triggers and 1-3 Shutdown() calls (1/3 of "
+         "taken is read from the service log and fed to the model, which checks it was enabled; a further gate sits in the log hook "
+         "right after the select receive (state still Running, Run committed to the branch). non-trivial = at least one reload; "
+         "distinct = distinct op sequence. exhaustive: every script over the gate alphabet {go, fail, shutdown, hup, term, watch, "
+         "watcherr, async, cancel} of length <= n (quick 3, thorough 5) from three anchors (not started; Running idle in the select; "
+         "select has just received SIGHUP), breadth first, only tokens applicable where the parent script ended, completed with ok "
+         "outcomes; case id = the script in decimal digits; same protocol, model and oracles. race: no gates, every hook (Factories, "
+         "Retrieve, each component Start/Shutdown, provider Shutdown, the log hook right after the select receive) is a yield point "
+         "sleeping 0-0.3 ms, 1-4 reload triggers and 1-3 Shutdown() calls (1/3 of "
          "the cases plus SIGTERM / async error / cancel) from goroutines with random 0-3 ms delays; the event log is checked by the "
          "Lean monitor C20.check (proved sound: C20_check_sound) and by a Go oracle (rest in select with the request dropped); "
          "non-trivial = at least one reload happened; distinct = distinct scenario descriptor.",
